@@ -210,14 +210,50 @@ def run(ctx, report: Report) -> None:
                                  f'{c}: field {k.arg} is stored as `{unparse(v)}`, which may be a mutable/unhashable '
                                  f'iterable; fields must be immutable parameters or tuple(...) of them')
     hinit = tmod.functions['ImmutableDict.__init__']
-    hs = [st for st in walk_no_nested(hinit) if isinstance(st, ast.Assign) and unparse(st.targets[0]) == 'self._hash']
-    ok = bool(hs) and 'sorted(' in unparse(hs[0].value) and 'self._d' in unparse(hs[0].value)
-    r3.instance({'ImmutableDict._hash': unparse(hs[0].value) if hs else None, 'order_independent': ok}, key='maphash')
+    import itertools
+    from ..interp import Obj, Raised, call_function
+    from ..miniev import Unsupported
+
+    def map_hash(pairs, as_dict):
+        """Interpret ImmutableDict.__init__ with hash() and type() replaced by injective stand-ins."""
+        me = Obj(_cls='css_types.ImmutableDict', _name='map')
+        arg = dict(pairs) if as_dict else list(pairs)
+        stubs = {'hash': lambda v: ('hash', v), 'type': lambda v: type(v).__name__,
+                 'css_types.ImmutableDict._validate': lambda *a_: None}
+        try:
+            call_function(ctx, 'css_types.ImmutableDict.__init__', [arg], {}, stubs, me)
+        except Raised as e:
+            return f'raises {e.exc_name}', False
+        except Unsupported as e:
+            raise AnalysisError(f'ImmutableDict.__init__: outside the evaluable fragment: {e}')
+        if not me.has('_hash') or not me.has('_d'):
+            raise AnalysisError('ImmutableDict.__init__ no longer stores _d / _hash (anchor vanished)')
+        return me.get('_hash'), me.get('_d') is not arg
+    base = [('a', '1'), ('b', '2'), ('c', '1')]
+    ref, _ = map_hash(base, False)
+    bad = None
+    n_orders = 0
+    for perm in itertools.permutations(base):
+        for as_dict in (False, True):
+            h, own = map_hash(list(perm), as_dict)
+            n_orders += 1
+            if (h != ref or not own) and bad is None:
+                bad = (f'the entries given as {"dict" if as_dict else "pairs"} in the order {[k for k, _ in perm]} '
+                       + ('hash differently from the order a, b, c' if h != ref else 'are stored without copying'))
+    for variant, what in (([('a', '1'), ('b', '2'), ('c', '2')], 'a changed value'), ([('a', '1'), ('b', '2'), ('d', '1')], 'a changed key'),
+                          ([('a', '1'), ('b', '2')], 'a missing entry'), ([('a', '2'), ('b', '1'), ('c', '1')], 'two values swapped')):
+        h, _ = map_hash(variant, True)
+        n_orders += 1
+        if h == ref and bad is None:
+            bad = f'{what} ({variant} vs {base}) leaves the hash unchanged although the maps are unequal'
+    ok = bad is None
+    r3.instance({'ImmutableDict._hash': 'interpreted on every order of three entries (pairs and dict) and four unequal maps',
+                 'cases': n_orders, 'order_independent_and_content_dependent': ok}, key='maphash')
     r3.obligation(ok)
     if not ok:
         r3.violation('css_types.ImmutableDict.__init__ hash', tmod.where(hinit),
-                     'ImmutableDict._hash is not computed from the sorted items of its own copy: equal maps given in '
-                     'different orders hash differently (distinct cache entries, unequal compiled selectors)')
+                     f'ImmutableDict._hash: {bad}: equal maps must hash equally whatever their order (one cache entry, equal '
+                     f'compiled selectors) and the hash must be computed from the own copy of keys and values')
     for c in [idict] + src.subclasses(idict):
         mn, _, cn = c.partition('.')
         has_eq = f'{cn}.__eq__' in src.mods[mn].functions
